@@ -389,3 +389,17 @@ package asp
 //@   ensures modulo_has_the_sign_of_the_divisor [C16]: operator == Modulo && dyntype(operand, pyInt) ==> dyntype(result, pyInt) && \
 //@      (unbox(operand, pyInt) > 0 ==> 0 <= unbox(result, pyInt) && unbox(result, pyInt) < unbox(operand, pyInt)) && \
 //@      (unbox(operand, pyInt) < 0 ==> unbox(operand, pyInt) < unbox(result, pyInt) && unbox(result, pyInt) <= 0)
+
+// interpretOps: when the next operator binds tighter than the current one, the right operand of the current
+// operator is the value of the RUN of strictly tighter operators that follows — no more: the operators after
+// that run apply to the result (left associativity), e.g. 10 - 2 * 3 - 1 is (10 - (2 * 3)) - 1.
+//@ func (scope).interpretOps
+//@   requires s != nil && len(ops) >= 1
+//@   opt nopanic=off
+//@   opt panics=allowed
+//@   opt inline=off
+//@   opt precall=off
+//@   callsite (scope).interpretOps right_operand_is_only_the_tighter_run [C16]: \
+//@      (len(ops) >= 2 && ops[0].Op.Precedence() < ops[1].Op.Precedence() && ops[0].Expr != nil && \
+//@       !(ops[0].Op.Lazy() && obj.IsTruthy() != (ops[0].Op == And)) && called("(scope).interpretExpression") && !called("(scope).interpretOp")) ==> \
+//@      (forall j int :: 0 <= j && j < len(arg_ops) ==> arg_ops[j].Op.Precedence() > ops[0].Op.Precedence())
